@@ -126,6 +126,7 @@ class Fn:
         self.fn, self.prop, self.out, self.stats = fn, prop, out, stats
         self.summaries = summaries or {}       # callee -> {(param index, field suffix)}: the callee leaves a fresh block there
         self.hands_over = set()                # (param index, field suffix) this function fills with a block it allocated
+        self.passthru = {}                     # callee -> index of the pointer parameter it returns (possibly reallocated)
         self.blocks = sa.blocks_by_id(fn)
         self.seen = set()
         self.paramids = {p["id"] for p in fn["params"]}
@@ -398,6 +399,13 @@ class Fn:
                     st.held["site:%d" % l0] = ("string returned by mp*_get_str (NULL, ...) at line %d" % l0, l0)
                     st.names[lk] = frozenset(["site:%d" % l0])
             return
+        # p = helper (.., q, ..) where the helper returns the block it was given (possibly moved): p is q as far as ownership goes
+        if isinstance(r, dict) and r.get("k") == "call" and r.get("callee") in self.passthru and self.passthru[r["callee"]] < len(r.get("args", [])):
+            r = r["args"][self.passthru[r["callee"]]]
+            while isinstance(r, dict) and r.get("k") == "cast":
+                r = r["e"]
+            if key(r) == lk:
+                return                          # s = store (s, ...): same owner, same name; the size is whatever the helper left (not tracked)
         # pointer copies: p = q, p = z->_mp_d
         rk = key(r) if isinstance(r, dict) else None
         if rk and rk in st.bind:
@@ -468,7 +476,10 @@ class Fn:
 
     def pkey(self, st):
         return (st.facts, frozenset((v, tconst(st.env[v])) for v in self.flagvars if v in st.env and tconst(st.env[v]) is not None),
-                frozenset((v, st.nulls[v]) for v in self.nullvars if v in st.nulls))
+                frozenset((v, st.nulls[v]) for v in self.nullvars if v in st.nulls),
+                # blocks still held that no name refers to any more (the last pointer was overwritten): kept apart from states in which the
+                # block is still reachable, or the union of the names at the join would let a later free release it
+                frozenset(h for h in st.held if h.startswith("site:") and not any(h in v for v in st.names.values())))
 
     @staticmethod
     def null_test(c):
@@ -661,6 +672,42 @@ class Fn:
             sa.walk(e, f)
 
 
+def passthrough_summaries(ex):
+    """static helpers that return the block they were given, possibly after reallocating it:  s = store (s, &upto, &alloc, c).
+    F qualifies for parameter k when every return hands back the variable of parameter k, and that variable is only ever reassigned
+    from `reallocate (k, ...)`.  For the caller `p = F (.., p, ..)` then keeps the one block p owns (no copy, no leak)."""
+    out = {}
+    for path, fn in ex.functions():
+        if sa.is_foreign_fixture(path, FIXTURE) or not fn.get("static"):
+            continue
+        pids = {p_["id"]: i for i, p_ in enumerate(fn["params"]) if "*" in p_.get("ct", "")}
+        if not pids:
+            continue
+        rets, bad, reall = [], set(), set()
+        for b in fn["blocks"]:
+            for el in b["elems"]:
+                def f(n):
+                    if n.get("k") == "return":
+                        r = n.get("e")
+                        while isinstance(r, dict) and r.get("k") in ("cast", "paren"):
+                            r = r["e"]
+                        rets.append(r["id"] if isinstance(r, dict) and r.get("k") == "var" else None)
+                    if n.get("k") == "binop" and n["op"].endswith("=") and n["op"] not in ("==", "!=", "<=", ">=") and n["l"].get("k") == "var" \
+                            and n["l"]["id"] in pids:
+                        r = n["r"]
+                        while isinstance(r, dict) and r.get("k") in ("cast", "paren"):
+                            r = r["e"]
+                        ok = n["op"] == "=" and isinstance(r, dict) and r.get("k") == "call" and r.get("callee") is None and akind(r) == "realloc" \
+                            and r.get("args") and key(r["args"][0]) == key(n["l"])
+                        (reall if ok else bad).add(n["l"]["id"])
+                    if n.get("k") == "unop" and n["op"] in ("post++", "pre++", "post--", "pre--") and n["e"].get("k") == "var" and n["e"]["id"] in pids:
+                        bad.add(n["e"]["id"])
+                sa.walk(el["e"], f)
+        if rets and len(set(rets)) == 1 and rets[0] in pids and rets[0] not in bad and "*" in fn.get("ret", "*"):
+            out[fn["name"]] = pids[rets[0]]
+    return out
+
+
 def run(prop="C04", tier="quick"):
     res = dict(findings=[], stats=collections.Counter(), samples=[], notes=[])
     ex = sa.export(sa.cfg_builtfx())
@@ -683,6 +730,8 @@ def run(prop="C04", tier="quick"):
         if a0.hands_over:
             summaries[fn["name"]] = set(a0.hands_over)
     res["stats"]["handover_summaries"] = len(summaries)
+    passthru = passthrough_summaries(ex)
+    res["stats"]["passthrough_summaries"] = len(passthru)
     for path, fn in ex.functions():
         if sa.is_foreign_fixture(path, FIXTURE):
             continue
@@ -698,6 +747,7 @@ def run(prop="C04", tier="quick"):
             continue
         out = []
         a = Fn(fn, prop, out, res["stats"], summaries)
+        a.passthru = passthru
         a.run()
         res["stats"]["functions"] += 1
         for (line, kind), v in a.verdict.items():
@@ -719,7 +769,8 @@ def run(prop="C04", tier="quick"):
     exp = {"fix_free_wrong_size": ("R-ALLOC.size", "free-size"), "fix_leak_local": ("R-ALLOC.pair", "leak:"),
            "fix_leak_block": ("R-ALLOC.pair", "leak:"), "fix_alloc_good": None,
            "fix_alloc_null_sentinel": None, "fix_alloc_null_sentinel_bad": ("R-ALLOC.pair", "leak:"),
-           "fix_handover_leak": ("R-ALLOC.pair", "leak:"), "fix_handover_good": None}
+           "fix_handover_leak": ("R-ALLOC.pair", "leak:"), "fix_handover_good": None,
+           "fix_passthru_good": None, "fix_passthru_bad": ("R-ALLOC.pair", "leak:")}
     for fname, e2 in exp.items():
         got = [(f.rule, f.signature) for f in fx if f.function == fname]
         if e2 is None and got:
